@@ -59,6 +59,9 @@ def check_lean_lemmas(report):
 def run_proofs(report, prop, modules, timeout_ms=None):
     """modules: list of (contract_module_name, [function qualnames]).
     Returns (records, n_obligations, n_discharged)."""
+    if os.environ.get("VERIF_NO_PROOFS") == "1":      # maintenance only (seed sweeps of the bounded tiers); never set by a registered command
+        report.coverage["proof_tier"] = "skipped (VERIF_NO_PROOFS=1)"
+        return [], 0, 0
     tier_name = report.tier
     timeout_ms = timeout_ms or (prove.THOROUGH_MS if tier_name == "thorough" else prove.QUICK_MS)
     baseline = load_baseline()
